@@ -219,6 +219,32 @@ def tag_twin_merge(trace, shard_index=0):
         f.write("\n".join(out) + "\n")
 
 
+def cross_build(name, scenario, build_a="std", build_b="alloc", prop="C18", jobs=8, known=None):
+    """Records the same scenario on two builds and hands build_b's observation of every operation to the
+    trace specification as the `twin` of build_a's (they must be observationally identical)."""
+    wdir = ensure(os.path.join(WORK, "cross_%d_%s" % (os.getpid(), name)))
+    shards = shard_units(scenario.units, jobs)
+    flat = [[op for u in sh for op in u] for sh in shards]
+    other = {}
+    for i, ops in enumerate(flat):
+        tr, _ = _record_shard(build_b, ops, os.path.join(wdir, "b%03d" % i))
+        other[i] = [json.loads(l) for l in open(tr, "rb").read().split(b"\n") if l]
+
+    def merge(trace, i):
+        evs = [json.loads(l) for l in open(trace, "rb").read().split(b"\n") if l]
+        out = []
+        for j, e in enumerate(evs):
+            if j < len(other[i]) and e.get("op") in ("line", "unarmor", "decode"):
+                a = other[i][j]
+                e["twin"] = {k: a[k] for k in ("r", "s", "ck", "msg", "out") if k in a}
+                e["twinprop"], e["twinmode"], e["twinwhy"] = prop, "full", "%s-vs-%s" % (build_a, build_b)
+            out.append(json.dumps(e, separators=(",", ":")))
+        open(trace, "w").write("\n".join(out) + "\n")
+    fr = run_family(name + "-" + build_a + "=" + build_b, scenario, build_a, jobs=jobs, known=known, twin_merge=merge)
+    shutil.rmtree(wdir, ignore_errors=True)
+    return fr
+
+
 def write_replay(prop, v):
     ensure(REPLAYS)
     blob = json.dumps(dict(property=prop, build=v["build"], family=v["family"], what=v["what"],
